@@ -227,6 +227,8 @@ class ContinuousMultiVariable(Variable):
     def validate_bounds(self) -> "ContinuousMultiVariable":
         if len(self.lower_bounds) != len(self.upper_bounds):
             raise ValueError("Lower and upper bounds must have the same length")
+        if len(self.lower_bounds) == 0:
+            raise ValueError("At least one pair of bounds is required")
         if np.any(np.array([ub <= lb for lb, ub in zip(self.lower_bounds, self.upper_bounds)])):
             raise ValueError("Upper bound must be greater than lower bound")
         return self
@@ -289,6 +291,12 @@ class DiscreteMultiVariable(Variable):
         self._children = [
             DiscreteVariable(name=f"{self.name}{i}", choices=self.choices[i]) for i in range(len(self.choices))
         ]
+
+    @field_validator("choices")
+    def validate_choices(cls, v):
+        if len(v) == 0:
+            raise ValueError("At least one list of choices is required")
+        return v
 
     def get(self) -> list["DiscreteVariable"]:
         return self._children
@@ -367,6 +375,8 @@ class MultiObjectiveVariable(Variable):
     def validate_bounds(self) -> "MultiObjectiveVariable":
         if len(self.lower_bounds) != len(self.upper_bounds):
             raise ValueError("Lower and upper bounds must have the same length")
+        if len(self.lower_bounds) == 0:
+            raise ValueError("At least one pair of bounds is required")
         if np.any(np.array([ub <= lb for lb, ub in zip(self.lower_bounds, self.upper_bounds)])):
             raise ValueError("Upper bound must be greater than lower bound")
         return self
